@@ -761,12 +761,7 @@ class MembersType(StandardEncodeMixin, StandardDecodeMixin, Type):
 
         values = {}
 
-        offset, out_of_data = self.decode_members(self.root_members, data, values, offset, end_offset)
-
-        # Decode additions (even if out of data already, so defaults can be added)
-        if self.additions:
-            offset, out_of_data = self.decode_members(flatten(self.additions), data, values, offset, end_offset,
-                                                      ignore_missing=True, out_of_data=out_of_data)
+        offset, out_of_data = self.decode_root_and_additions(data, values, offset, end_offset)
 
         if out_of_data:
             return values, offset
@@ -777,6 +772,16 @@ class MembersType(StandardEncodeMixin, StandardDecodeMixin, Type):
         else:
             # Extra data is allowed in cases of versioned additions
             return values, end_offset
+
+    def decode_root_and_additions(self, data, values, offset, end_offset):
+        offset, out_of_data = self.decode_members(self.root_members, data, values, offset, end_offset)
+
+        # Decode additions (even if out of data already, so defaults can be added)
+        if self.additions:
+            offset, out_of_data = self.decode_members(flatten(self.additions), data, values, offset, end_offset,
+                                                      ignore_missing=True, out_of_data=out_of_data)
+
+        return offset, out_of_data
 
     def decode_members(self, members, data, values, offset, end_offset, ignore_missing=False, out_of_data=False):
         """
@@ -791,6 +796,17 @@ class MembersType(StandardEncodeMixin, StandardDecodeMixin, Type):
         :param bool out_of_data: Whether the end of the member data (and any end-of-contents tag) has already
                                  been passed
         :return:
+        """
+        remaining_members, offset, out_of_data = self.decode_present_members(members, data, values, offset,
+                                                                             end_offset, out_of_data)
+        self.add_missing_members(remaining_members, data, values, offset, ignore_missing, out_of_data)
+
+        return offset, out_of_data
+
+    def decode_present_members(self, members, data, values, offset, end_offset, out_of_data=False):
+        """
+        Decode values for those of the members there is data for, in any order
+        :return: Tuple of (members without data, end offset, whether the end of the member data was reached)
         """
         # Decode member values from data
         remaining_members = members
@@ -834,6 +850,9 @@ class MembersType(StandardEncodeMixin, StandardDecodeMixin, Type):
                 # No members are able to decode data, exit loop
                 break
 
+        return remaining_members, offset, out_of_data
+
+    def add_missing_members(self, remaining_members, data, values, offset, ignore_missing, out_of_data):
         # Handle remaining members that there is no data for
         # (will raise error if member is not optional and has no default)
         for member in remaining_members:
@@ -848,7 +867,6 @@ class MembersType(StandardEncodeMixin, StandardDecodeMixin, Type):
                 raise MissingMandatoryFieldError(member, offset)
             else:
                 raise DecodeTagError(member, data, offset, location=member)
-        return offset, out_of_data
 
     def __repr__(self):
         return '{}({}, [{}])'.format(
@@ -1137,6 +1155,19 @@ class Set(MembersType):
                                   Tag.SET,
                                   root_members,
                                   additions)
+
+    def decode_root_and_additions(self, data, values, offset, end_offset):
+        # The members of a SET are encoded in any order, the
+        # extension additions included.
+        additions = flatten(self.additions) if self.additions else []
+        remaining_members, offset, out_of_data = self.decode_present_members(self.root_members + additions,
+                                                                             data, values, offset, end_offset)
+        self.add_missing_members([member for member in remaining_members if member not in additions],
+                                 data, values, offset, False, out_of_data)
+        self.add_missing_members([member for member in remaining_members if member in additions],
+                                 data, values, offset, True, out_of_data)
+
+        return offset, out_of_data
 
 
 class SetOf(ArrayType):
